@@ -18,6 +18,7 @@ import ASV.Model.DetectRecord
 import ASV.Model.Rotate
 import ASV.Model.Pipeline
 import ASV.Drv.C05
+import ASV.Model.Rulesets
 namespace ASV.Drv.C07
 open Lean ASV ASV.Drv ASV.Rules ASV.Proto
 
@@ -107,6 +108,40 @@ def runOne (len : Int) (circ : Bool) (allRules : List RuleM) (base : List GeneIn
     ("chains", jArr chains), ("regions", regions),
     ("wf", toJson (Chains.inputsWF r rules))]
 
+/-- C02's heap model of `get_ruleset` on the case's request sequence (one process, empty cache at the start):
+    per request the rules `[name, cutoff, neighbourhood]` of the ruleset handed out, read when it is handed out
+    and again after the last request -/
+def optModel (o : Json) : R Json := do
+  let rows ← listOf (fun r => do
+    return (← asStr (← idx r 0), ← asStr (← idx r 1), ← asNat (← idx r 2), ← asNat (← idx r 3))) (← fld o "rules")
+  let rules : List Parser.Rule := rows.map fun x => ⟨x.1, x.2.1, x.2.2.1, x.2.2.2, .single false "p", [], [], [], [], none⟩
+  let frac := fun (k : String) => do
+    let f ← fld o k
+    return ((← asInt (← idx f 0)), (← asNat (← idx f 1)))
+  let cm ← frac "cmul"
+  let nm ← frac "nmul"
+  let reqs ← listOf (fun q => do
+    return ({ strictness := "relaxed", names := ← listOf asStr (← fld q "names"), cats := ← listOf asStr (← fld q "cats"),
+              fungi := true, cmul := cm, nmul := nm } : Rulesets.Req)) (← fld o "reqs")
+  let parsed : String → Except Parser.Err (List Parser.Rule) := fun _ => .ok rules
+  let rowsJ := fun (rs : List Parser.Rule) => jArr (rs.map fun r => jArr [Json.str r.name, toJson r.cutoff, toJson r.neighbourhood])
+  let mut st : Rulesets.State := {}
+  let mut handed : List (Option Rulesets.RS) := []
+  let mut atUse : List Json := []
+  for q in reqs do
+    match Rulesets.getRuleset parsed q st with
+    | .ok (rs, st') =>
+      st := st'
+      handed := handed ++ [some rs]
+      atUse := atUse ++ [rowsJ (rs.read st.heap)]
+    | .error e =>
+      handed := handed ++ [none]
+      atUse := atUse ++ [Json.str e.name]
+  let final := handed.map fun h => match h with
+    | some rs => rowsJ (rs.read st.heap)
+    | none => Json.null
+  return jObj [("at_use", jArr atUse), ("final", jArr final)]
+
 def handle (j : Json) : R Json := do
   let len ← intF j "len"
   let circ ← boolF j "circ"
@@ -116,6 +151,10 @@ def handle (j : Json) : R Json := do
     | some r0 => listOf C03.geneOfJson (← fld r0 "genes")
     | none => pure []
   let runs ← runsJ.mapM (runOne len circ allRules base)
-  return jObj [("runs", jArr runs)]
+  let opt ← match j.getObjVal? "opt" with
+    | .ok .null => pure Json.null
+    | .ok o => optModel o
+    | .error _ => pure Json.null
+  return jObj [("runs", jArr runs), ("opt", opt)]
 
 end ASV.Drv.C07
